@@ -280,11 +280,13 @@ Definition client_tags (p : project) : tagdb :=
   fold_left (fun d g => match tag_info p g with Some i => dset (full_name g) i d | None => d end) (visible_tags p) [].
 
 (* ================================================================ decoding (cip/data_types.py, custom_types.py) *)
-(* DataType._stream_read: stream.read(size); nothing read -> BufferEmptyError *)
+(* DataType._stream_read: data = stream.read(size); nothing read although size != 0 -> BufferEmptyError;
+   fewer bytes than asked for -> DataError (the buffer ends inside a value) *)
 Definition stream_read (n : Z) (s : bytes) : res (bytes * bytes) :=
-  match firstn (Z.to_nat n) s with
-  | [] => Err BufferEmpty
-  | d => Ok (d, skipn (Z.to_nat n) s)
+  let d := firstn (Z.to_nat n) s in
+  match d with
+  | [] => if n =? 0 then Ok ([], s) else Err BufferEmpty
+  | _ => if len d <? n then Err DataError else Ok (d, skipn (Z.to_nat n) s)
   end.
 
 Definition bits_value (w : Z) (v : Z) : rvalue :=
@@ -321,19 +323,19 @@ Section DecMany.
     end.
 End DecMany.
 
-(* StructTag._decode, first loop: [pos] = stream.tell(), [cur] = the unread part of the sub-stream *)
+(* StructTag._decode, first loop: stream.seek(cls._offsets[member]); member.decode(stream) on the
+   sub-stream [raw] (seek past the end is allowed, the member then finds an empty buffer; a negative
+   offset is a ValueError) *)
 Section DecMembers.
   Variable dec : tclass -> bytes -> res (rvalue * bytes).
-  Fixpoint dec_members (ms : list (text * Z * tclass))
-           (pos : Z) (cur : bytes) (vals : list (text * rvalue)) : res (list (text * rvalue)) :=
+  Fixpoint dec_members (ms : list (text * Z * tclass)) (raw : bytes) (vals : list (text * rvalue))
+    : res (list (text * rvalue)) :=
     match ms with
     | [] => Ok vals
     | (n, off, mtc) :: r =>
-        let skip := if pos <? off then off - pos else 0 in
-        let cur1 := skipn (Z.to_nat skip) cur in
-        let pos1 := pos + (len cur - len cur1) in
-        let* (v, cur2) := dec mtc cur1 in
-        dec_members r (pos1 + (len cur1 - len cur2)) cur2 (dset n v vals)
+        if off <? 0 then Err (Foreign ValueError) else
+        let* (v, _) := dec mtc (skipn (Z.to_nat off) raw) in
+        dec_members r raw (dset n v vals)
     end.
 End DecMembers.
 
@@ -371,10 +373,12 @@ Fixpoint decode_tc (tc : tclass) (s : bytes) {struct tc} : res (rvalue * bytes) 
                    | _ => Err DataError
                    end)
   | KStruct ms bits priv size =>
-      (* StructTag._decode: stream = BytesIO(stream.read(cls.size)); raw = stream.getvalue() *)
+      (* StructTag._decode: raw = stream.read(cls.size); some but fewer bytes -> DataError;
+         stream = BytesIO(raw) *)
       let raw := firstn (Z.to_nat size) s in
       let rest := skipn (Z.to_nat size) s in
-      wrap_decode (let* vals := dec_members (fun mtc => decode_tc mtc) ms 0 raw [] in
+      wrap_decode (if negb (match raw with [] => true | _ => false end) && (len raw <? size) then Err DataError else
+                   let* vals := dec_members (fun mtc => decode_tc mtc) ms raw [] in
                    let* vals2 := dec_bits raw bits vals in
                    Ok (RStruct (filter (fun kv => negb (tmem (fst kv) priv)) vals2), rest))
   end.
